@@ -30,6 +30,12 @@ pub struct Workload {
 	/// reclaiming all of them (the commit worker waits for the cleanup worker only above 16)
 	#[serde(default)]
 	pub no_sync_data: bool,
+	/// after the clients have finished: (pause, keys) - the main thread lets the workers run
+	/// (pause x 300 scheduling points, so that they may go idle) and then commits a transaction
+	/// that adds nothing to the queue's byte count: removals of these keys of client 0, or an
+	/// empty transaction; nothing follows it but the observer
+	#[serde(default)]
+	pub tail: Vec<(u8, Vec<u16>)>,
 }
 
 /// size classes: the last one is 1 MiB (17 of them exceed the 16 MiB queue limit)
@@ -62,8 +68,9 @@ pub fn workload(big: bool) -> impl Strategy<Value = Workload> {
 		prop_oneof![1 => Just(false), 2 => Just(true)],
 		any::<bool>(),
 		prop_oneof![2 => Just((0u8, 0u8)), 1 => (1u8..4, 1u8..40)],
+		prop_oneof![2 => Just(Vec::new()), 1 => proptest::collection::vec((0u8..12, proptest::collection::vec(0u16..12, 0..3)), 1..3)],
 	)
-		.prop_map(|(clients, always_flush, shutdown_early, iter)| Workload { clients, always_flush, shutdown_early, iter, no_sync_data: false })
+		.prop_map(|(clients, always_flush, shutdown_early, iter, tail)| Workload { clients, always_flush, shutdown_early, iter, no_sync_data: false, tail })
 }
 
 /// Transactions of 40-75 values of 1 MiB each: two of them exceed the 128 MiB limit of
@@ -76,7 +83,7 @@ pub fn workload_giant() -> impl Strategy<Value = Workload> {
 		big.extend(small);
 		big
 	});
-	(proptest::collection::vec(client, 1..=1), any::<bool>(), prop_oneof![1 => Just(false), 2 => Just(true)]).prop_map(|(clients, always_flush, shutdown_early)| Workload { clients, always_flush, shutdown_early, iter: (0, 0), no_sync_data: false })
+	(proptest::collection::vec(client, 1..=1), any::<bool>(), prop_oneof![1 => Just(false), 2 => Just(true)]).prop_map(|(clients, always_flush, shutdown_early)| Workload { clients, always_flush, shutdown_early, iter: (0, 0), no_sync_data: false, tail: Vec::new() })
 }
 
 /// `sync_data = false` with every log file rotated at once: 18-40 small transactions per client,
@@ -84,7 +91,7 @@ pub fn workload_giant() -> impl Strategy<Value = Workload> {
 pub fn workload_kept_logs() -> impl Strategy<Value = Workload> {
 	let tx = proptest::collection::vec((0u16..12, 0u8..4), 1..=3);
 	let client = proptest::collection::vec(tx, 30..70);
-	(proptest::collection::vec(client, 1..=2), prop_oneof![3 => Just(false), 1 => Just(true)]).prop_map(|(clients, shutdown_early)| Workload { clients, always_flush: true, shutdown_early, iter: (0, 0), no_sync_data: true })
+	(proptest::collection::vec(client, 1..=2), prop_oneof![3 => Just(false), 1 => Just(true)]).prop_map(|(clients, shutdown_early)| Workload { clients, always_flush: true, shutdown_early, iter: (0, 0), no_sync_data: true, tail: Vec::new() })
 }
 
 fn options(dir: &Path, wl: &Workload, background: bool) -> Options {
@@ -172,6 +179,18 @@ pub fn execute(wl: Arc<Workload>, base: &Path) {
 			panic!("client panicked");
 		}
 	}
+	let mut removed: std::collections::BTreeSet<u16> = Default::default();
+	for (pause, keys) in &wl.tail {
+		for _ in 0..(*pause as usize) * 300 {
+			thread::yield_now();
+		}
+		let items: Vec<(u8, Vec<u8>, Option<Vec<u8>>)> = keys.iter().map(|k| (0u8, key(0, *k), None)).collect();
+		if let Err(e) = db.commit(items) {
+			violation("commit-failed", format!("tail transaction: {e}"));
+		}
+		removed.extend(keys.iter().cloned());
+		ZERO_BYTE_TAIL.fetch_add(1, Ordering::SeqCst);
+	}
 	if !wl.shutdown_early {
 		// (3) without any further call the queue drains (and with always_flush everything is
 		// applied)
@@ -237,6 +256,12 @@ pub fn execute(wl: Arc<Workload>, base: &Path) {
 		}
 		for (k, (t, cl)) in last {
 			let got = db.get(0, &key(c, k)).expect("get");
+			if c == 0 && removed.contains(&k) {
+				if got.is_some() {
+					violation("committed-removal-lost", format!("after shutdown and reopen key {k} of client 0, removed by the last transactions, is still present"));
+				}
+				continue
+			}
 			if got.as_deref() != Some(&value(k, cl, c, t)[..]) {
 				violation("committed-data-lost", format!("after shutdown and reopen key {k} of client {c} (transaction {t}) is {:?} bytes", got.map(|v| v.len())));
 			}
